@@ -553,6 +553,34 @@ func TinyPayloadStream(seed int64) *Stream {
 	return &Stream{Name: "tiny-last-payloads", Pkts: ps, Bytes: EncodePkts(ps), Exp: exp}
 }
 
+// PayloadLengthSweepStream: one PID whose packets carry every payload length from 184 down to 1 and back
+// up (adaptation-field stuffing makes up the difference), each packet followed by more packets: how much of a
+// packet is payload is independent of how large the packet is on the wire.
+func PayloadLengthSweepStream(seed int64) *Stream {
+	cc := uint8(3)
+	var ps []*ref.Pkt
+	exp := map[uint16][]ExpData{}
+	mk := func(tag int, chunks []int) {
+		n := 184
+		for _, ch := range chunks {
+			n += ch
+		}
+		u := PESUnit(0x150, 0xe0, pesPayload(tag, n+184-14, seed), uint64(tag), false)
+		ps = append(ps, Packetize(u, append([]int{0}, chunks...), &cc, false)...)
+		exp[0x150] = append(exp[0x150], u.Exp...)
+	}
+	var down, up []int
+	for l := 183; l >= 1; l-- {
+		down = append(down, l)
+	}
+	for l := 1; l <= 183; l++ {
+		up = append(up, l)
+	}
+	mk(130, down)
+	mk(131, up)
+	return &Stream{Name: "payload-length-sweep", Pkts: ps, Bytes: EncodePkts(ps), Exp: exp}
+}
+
 // SyncLookalikeStream: 0x47 bytes in the four bytes that follow the second packet's sync byte
 // (PID low byte 0x47, adaptation_field_length 0x47) and a pointer_field/payload byte 0x47: the
 // packet-size heuristic must take the FIRST sync byte at or after offset 188.
